@@ -32,6 +32,7 @@ from pathlib import Path
 from typing import Optional
 
 SPIN_EVENTS = 3000          # coordinator events without any task progress: it is spinning
+SILENCE_S = 25.0            # seconds without any event from a coordinator that should be polling twice a second
 HANG_SAMPLES = 16           # polls (0.5 s each) without progress after which the run is declared hung
 
 
@@ -336,12 +337,33 @@ class Controller:
         events_since_progress = 0
         gate_dir = None
         deadline = time.time() + self.job_timeout
+        last_event_time = time.time()
+        wdone = set()            # tasks whose worker has finished its work (left run() / finished the load)
         post_exit_polls = 0
         while True:
             if time.time() > deadline:
                 raise MachineryTimeout(f'R3 job {job["id"]} timed out; last events: {ev[-6:]}; '
                                        f'stderr: {open(self.dir / "err.txt").read()[-1500:]}')
             recs = tail.read()
+            if recs:
+                last_event_time = time.time()
+            elif in_job and not outcome_seen and not in_setup and time.time() - last_event_time > SILENCE_S:
+                # The coordinator has not polled for a long time (it polls twice a second).  If nothing it could be waiting
+                # for can still happen -- every task in flight was killed or has already finished its work -- it is stuck.
+                pending = [t for t in started if t not in finished and t not in killed and t not in wdone]
+                if not pending and started:
+                    self.write({'e': 'outcome', 'kind': 'hang', 'exc': 'Hang', 'cause': '', 'keys': [], 'vals': []})
+                    ev.append({'e': 'outcome', 'kind': 'hang', 'exc': 'Hang', 'cause': '', 'keys': [], 'vals': [], 'pid': 0})
+                    os.killpg(runner_pid, signal.SIGKILL)
+                    return {'job': job, 'events': ev, 'runner_pid': runner_pid, 'hang': True,
+                            'unused_actions': actions, 'aborted': True}
+                gated = [t for t in pending if t in entered and t not in released and gate_dir is not None]
+                if gated:
+                    # the coordinator waits (legitimately) for a task that this rig holds at its gate, without polling: the
+                    # controller will never see the resting point it is waiting for -- let the task go
+                    for t in gated:
+                        self.release(gate_dir, t, released)
+                last_event_time = time.time()
             if not recs:
                 if self.proc.poll() is not None:
                     recs = tail.read()
@@ -391,6 +413,9 @@ class Controller:
                     entered[r['t']] = r['pid']
                 elif e == 'load':
                     loaded.add(r['t'])
+                    wdone.add(r['t'])
+                elif e == 'rend':
+                    wdone.add(r['t'])
                 elif e in ('consume', 'died', 'exec_stop'):
                     finished.add(r['t'])
                     samples_since_progress = 0
@@ -419,7 +444,7 @@ class Controller:
             inflight = [t for t in started if t not in finished]
             blocked = [t for t in inflight if t in entered and t not in released and t not in killed]
             at_rest = sample_after_change and len(blocked) == len(inflight) and \
-                samples_since_progress >= job.get('rest_samples', 1)       # (full polling rounds spent at rest before acting)
+                samples_since_progress >= job.get('rest_samples', 0)       # (full polling rounds spent at rest before acting)
             if events_since_progress >= SPIN_EVENTS and not outcome_seen:
                 at_rest = False
             if at_rest and (blocked or (actions and inflight)):
